@@ -109,6 +109,9 @@ class NullProf(object):
 def summarize(msg):
     '''compact, deterministic description of a message for the event log'''
     try:
+        if isinstance(msg, dict) and 'uid' in msg and 'cmd' not in msg:
+            # a single thing published as such (e.g. an unschedule request)
+            return {'things': [(msg.get('uid'), msg.get('state'))]}
         if isinstance(msg, dict):
             cmd = msg.get('cmd')
             arg = msg.get('arg')
@@ -864,6 +867,27 @@ class RuProxy(object):
 
     def get_hostname(self):
         return 'localhost'
+
+    def env_eval(self, *a, **k):
+        return dict()
+
+    def env_prep(self, *a, **k):
+        return dict()
+
+    def _io_fault(self, name, a, k):
+        hook = _sim().data.get('os_fault')
+        if hook:
+            exc = hook(name, a, k)
+            if exc is not None:
+                raise exc
+
+    def ru_open(self, *a, **k):
+        self._io_fault('ru_open', a, k)
+        return _ru.ru_open(*a, **k)
+
+    def rec_makedir(self, *a, **k):
+        self._io_fault('rec_makedir', a, k)
+        return _ru.rec_makedir(*a, **k)
 
     def cancel_main_thread(self, *a, **k):
         _sim().log('cancel_main_thread')
